@@ -397,7 +397,10 @@ def concrete_sizes(sizes):
 
 def eval_scalar(v, env):
     if isinstance(v, (R, B)):
-        return evaluate(v, env)
+        try:
+            return evaluate(v, env)
+        except KeyError:
+            return SKIP          # depends on an uninterpreted quantity (solver output, opaque reduction)
     if isinstance(v, IExpr):
         from .reals import _eval_int
         return Fraction(_eval_int(v, env))
